@@ -61,7 +61,8 @@ MaskCases == MaskSet(32) \cup {Flip1(b, i) : b \in MaskSet(32), i \in 1..32}
 Init ==
   IF Mode = "mask" THEN s = << >> /\ \E b \in MaskCases : meta = [st |-> "done", bits |-> b, mask |-> IsMaskBits(b)]
   ELSE IF Mode = "strings" THEN s = << >> /\ meta = [st |-> "done"]
-  ELSE \E l \in CtxV : s = l /\ meta = [st |-> "a", n |-> 0, sp |-> 0, plain |-> (l = Space), dc |-> FALSE, b |-> 0]
+  ELSE \E l \in CtxV : \E bg \in (IF Mode = "v6" THEN {One, <<65, 66>>, <<68, 66, 56>>} ELSE {One}) :
+          s = l /\ meta = [st |-> "a", n |-> 0, sp |-> 0, plain |-> (l = Space), dc |-> FALSE, b |-> 0, base |-> bg]
 
 Sep(c) == IF meta.n > 0 THEN <<c>> ELSE << >>
 
@@ -77,16 +78,16 @@ Short6 == meta.plain \/ (meta.n + meta.b <= 1) \/ (meta.n = 8 /\ ~meta.dc)
 Next6 ==
   \* left groups
   \/ /\ meta.st = "a" /\ meta.n < 8 /\ (meta.plain \/ meta.n < 1 \/ meta.n >= 2)
-     /\ \E g \in (IF meta.sp >= 1 \/ ~meta.plain THEN {One} ELSE G6) :
+     /\ \E g \in (IF meta.sp >= 1 \/ ~meta.plain THEN {meta.base} ELSE G6 \cup {meta.base}) :
           /\ s' = s \o Sep(Colon) \o g
-          /\ meta' = [meta EXCEPT !.n = @ + 1, !.sp = @ + (IF g = One THEN 0 ELSE 1)]
+          /\ meta' = [meta EXCEPT !.n = @ + 1, !.sp = @ + (IF g = meta.base THEN 0 ELSE 1)]
   \* optional "::", then right groups
   \/ /\ meta.st = "a" /\ (meta.plain \/ meta.n <= 1)
      /\ s' = s \o <<Colon, Colon>> /\ meta' = [meta EXCEPT !.st = "b", !.dc = TRUE]
   \/ /\ meta.st = "b" /\ meta.n + meta.b < 9 /\ (meta.plain \/ meta.b < 1)
-     /\ \E g \in (IF meta.sp >= 1 \/ ~meta.plain THEN {One} ELSE G6) :
+     /\ \E g \in (IF meta.sp >= 1 \/ ~meta.plain THEN {meta.base} ELSE G6 \cup {meta.base}) :
           /\ s' = s \o (IF meta.b > 0 THEN <<Colon>> ELSE << >>) \o g
-          /\ meta' = [meta EXCEPT !.b = @ + 1, !.sp = @ + (IF g = One THEN 0 ELSE 1)]
+          /\ meta' = [meta EXCEPT !.b = @ + 1, !.sp = @ + (IF g = meta.base THEN 0 ELSE 1)]
   \* optional dotted tail (needs a ':' before it), then the right context
   \/ /\ meta.st \in {"a", "b"} /\ (meta.n + meta.b > 0 \/ meta.dc) /\ Short6
      /\ \E tl \in (IF meta.plain THEN Tails ELSE {<< >>, <<49, 46, 50, 46, 51, 46, 52>>}) :
